@@ -700,7 +700,7 @@ theorem static_fields {r r' : Rec Id} (h : Wait.static r' = Wait.static r) :
 
 theorem script_facts (run : Run) (cond : Wait.Cond) (i : Id) :
     ∀ c ∈ scriptFor run cond i, ∀ d ∈ c, d.id = i ∧ (d.envRemove = true → cond = .allNotFound) ∧
-      (cond = .allNotFound → d.newUid = false ∧
+      (cond = .allNotFound → (DelScriptsOK run → d.newUid = false) ∧
         (DelScriptsOK run → d.status = .notFound → d.envRemove = true ∨ hasFinalizer run i = false)) := by
   intro c hc d hd
   unfold scriptFor at hc
@@ -710,16 +710,23 @@ theorem script_facts (run : Run) (cond : Wait.Cond) (i : Id) :
     split at hc
     · simp only [List.mem_singleton] at hc; subst hc
       simp only [List.mem_singleton] at hd; subst hd
-      exact ⟨rfl, fun _ => rfl, fun _ => ⟨rfl, fun _ h => by simp at h⟩⟩
+      exact ⟨rfl, fun _ => rfl, fun _ => ⟨fun _ => rfl, fun _ h => by simp at h⟩⟩
     · simp only [List.mem_singleton] at hc; subst hc
       simp only [List.mem_cons, List.not_mem_nil, or_false] at hd
       rcases hd with hd | hd <;> subst hd
-      · exact ⟨rfl, fun _ => rfl, fun _ => ⟨rfl, fun _ h => by simp at h⟩⟩
-      · exact ⟨rfl, fun _ => rfl, fun _ => ⟨rfl, fun _ _ => Or.inl rfl⟩⟩
-    · rename_i h1 h2
+      · exact ⟨rfl, fun _ => rfl, fun _ => ⟨fun _ => rfl, fun _ h => by simp at h⟩⟩
+      · exact ⟨rfl, fun _ => rfl, fun _ => ⟨fun _ => rfl, fun _ _ => Or.inl rfl⟩⟩
+    · -- "replaced": not one of the `DelScriptsOK` scripts
+      rename_i h3
       simp only [List.mem_singleton] at hc; subst hc
       simp only [List.mem_singleton] at hd; subst hd
-      refine ⟨rfl, fun _ => rfl, fun _ => ⟨rfl, fun hdel _ => Or.inr ?_⟩⟩
+      refine ⟨rfl, fun _ => rfl, fun _ => ⟨fun hdel => ?_, fun _ h => by simp at h⟩⟩
+      exfalso
+      rcases getD_del_cases run hdel i with h | h | h <;> rw [h] at h3 <;> simp at h3
+    · rename_i h1 h2 h3
+      simp only [List.mem_singleton] at hc; subst hc
+      simp only [List.mem_singleton] at hd; subst hd
+      refine ⟨rfl, fun _ => rfl, fun _ => ⟨fun _ => rfl, fun hdel _ => Or.inr ?_⟩⟩
       unfold hasFinalizer
       rcases getD_del_cases run hdel i with h | h | h
       · rw [h]; rfl
@@ -742,7 +749,7 @@ theorem script_facts (run : Run) (cond : Wait.Cond) (i : Id) :
 theorem chain_facts (run : Run) (cond : Wait.Cond) (ids : List Id) (d : Delivery)
     (h : ∃ c ∈ ids.flatMap (scriptFor run cond), d ∈ c) :
     d.id ∈ ids ∧ (d.envRemove = true → cond = .allNotFound) ∧
-      (cond = .allNotFound → d.newUid = false ∧
+      (cond = .allNotFound → (DelScriptsOK run → d.newUid = false) ∧
         (DelScriptsOK run → d.status = .notFound → d.envRemove = true ∨ hasFinalizer run d.id = false)) := by
   obtain ⟨c, hc, hd⟩ := h
   obtain ⟨i, hi, hci⟩ := List.mem_flatMap.mp hc
@@ -1084,7 +1091,7 @@ theorem GoneT.wait {x : Ctx} (hx : CxOK x) (hdel : DelScriptsOK x.run) (group : 
             · exact absurd hld (hx.disj d.id (hA d.id hdin) l hl)
             · exact hc
           obtain ⟨l', hl', hu⟩ := ores hres
-          rw [hu, (hnf hc).1]
+          rw [hu, (hnf hc).1 hdel]
           simp only [Bool.false_eq_true, if_false]
           rw [← hld] at hl'
           exact hI2.pobj l hl l' hl'
@@ -1103,7 +1110,7 @@ theorem GoneT.wait {x : Ctx} (hx : CxOK x) (hdel : DelScriptsOK x.run) (group : 
       rw [hwc, hc] at hok
       refine hI2.successOK d.id r _ a hs ha hok (fun l hl hlid hres => ?_) (fun hst => ?_)
       · obtain ⟨l', hl', hu⟩ := ores hres
-        rw [hu, (hnf hc).1]
+        rw [hu, (hnf hc).1 hdel]
         simp only [Bool.false_eq_true, if_false]
         rw [← hlid] at hl'
         exact hI2.pobj l hl l' hl'
